@@ -529,10 +529,94 @@ pub fn generate_c12<W: Write>(c: &mut Cases<W>, rng: &mut Rng, thorough: bool) {
                 c.end();
             }
         }
+        // ---- iterators: every read and every seek of a range / prefix iteration fails once; the call of next
+        // during which it happens returns the error, what was yielded before is what the fault-free iteration
+        // yields, and the iteration never ends quietly (Ok(None)) short of it
+        if i % 3 == 1 || thorough {
+            let cfg = FileCfg { codec: if i % 4 == 0 { CompressionType::Snappy } else { CompressionType::None }, level: 0,
+                                block_size: 48 + (i % 40), unclamped: true, interval: Some(1 + i % 3), levels: ((i / 3) % 3) as u8 };
+            let es: Vec<(Vec<u8>, Vec<u8>)> = (0..40u32).map(|x| (vec![b'a' + (x / 10) as u8, (x % 10) as u8 * 20], vec![x as u8; (x % 7) as usize])).collect();
+            if let WriteOutcome::File(file) = write_file(&cfg, &es) {
+                for q in 0..4u8 {
+                    // 0 forward range, 1 reverse range, 2 forward prefix, 3 reverse prefix
+                    let run = |ctl: Rc<Ctl>| -> (Vec<(Vec<u8>, Vec<u8>)>, String) {
+                        let mut out = Vec::new();
+                        let r = catch(|| -> Result<(), String> {
+                            let rd = Reader::new(Sched::new(file.clone(), ctl.clone())).map_err(|e| err_class(&e))?;
+                            macro_rules! drain { ($it:expr) => {{ let mut it = $it.map_err(|e| err_class(&e))?;
+                                loop { match it.next() { Ok(Some((k, v))) => out.push((k.to_vec(), v.to_vec())), Ok(None) => break, Err(e) => return Err(err_class(&e)) }
+                                       if out.len() > 100 { return Err("runaway".into()); } } }} }
+                            match q {
+                                0 => drain!(rd.into_range_iter((std::ops::Bound::Included(vec![b'a', 100u8]), std::ops::Bound::Excluded(vec![b'd', 0u8])))),
+                                1 => drain!(rd.into_rev_range_iter((std::ops::Bound::Excluded(vec![b'a', 100u8]), std::ops::Bound::Included(vec![b'c', 180u8])))),
+                                2 => drain!(rd.into_prefix_iter(vec![b'b'])),
+                                _ => drain!(rd.into_rev_prefix_iter(vec![b'c'])),
+                            }
+                            Ok(())
+                        });
+                        let end = match r { Ok(Ok(())) => "ok".to_string(), Ok(Err(e)) => format!("err {}", e), Err(_) => "panic".to_string() };
+                        (out, end)
+                    };
+                    let ctl0 = Ctl::new();
+                    let (free, end0) = run(ctl0.clone());
+                    if end0 != "ok" || free.is_empty() {
+                        println!("DIRECT fail iterator {} without any fault ended with {} after {} entries", q, end0, free.len());
+                        continue;
+                    }
+                    for (kind, total) in [(3u8, ctl0.seeks.get()), (2u8, ctl0.reads.get())] {
+                        for k in 0..total {
+                            let ctl = Ctl::new();
+                            ctl.oneshot.set(k % 2 == 0);
+                            ctl.fault.set(Some((kind, k)));
+                            let (got, end) = run(ctl.clone());
+                            c.bump("faults.iterator", 1);
+                            let prefix_ok = got.len() <= free.len() && got[..] == free[..got.len()];
+                            if ctl.fired_at.get().is_some() && (end != "err io7" || !prefix_ok) {
+                                println!("DIRECT fail iterator {} (0 range, 1 reverse range, 2 prefix, 3 reverse prefix) with {} number {} of its source failing: ended with '{}' after {} entries (fault-free: {} entries){}",
+                                         q, if kind == 3 { "seek" } else { "read" }, k, end, got.len(), free.len(), if prefix_ok { "" } else { ", entries differ from the fault-free ones" });
+                            }
+                            if ctl.fired_at.get().is_none() && (end != "ok" || got != free) {
+                                println!("DIRECT fail iterator {}: no fault fired but the iteration differs from the fault-free one", q);
+                            }
+                        }
+                    }
+                }
+            }
+        }
+        // ---- no component fails, no error: a stored block above 64 MiB (one entry of 65 MiB, codec None) between
+        // small entries, scanned forward and backward and sought
+        if i == 0 {
+            let big = vec![0x5Au8; (65 << 20) + 3];
+            let es = vec![(vec![1u8], vec![1u8; 9]), (vec![2u8], big), (vec![3u8], vec![3u8; 9])];
+            let cfg = FileCfg { codec: CompressionType::None, level: 0, block_size: 4096, unclamped: false, interval: None, levels: 1 };
+            match write_file(&cfg, &es) {
+                WriteOutcome::File(file) => {
+                    let r = catch(|| -> Result<(usize, usize, bool), String> {
+                        let mut cur = Reader::new(Cursor::new(&file[..])).map_err(|e| err_class(&e))?.into_cursor().map_err(|e| err_class(&e))?;
+                        let mut n = 0;
+                        while let Some(_) = cur.move_on_next().map_err(|e| err_class(&e))? { n += 1; if n > 5 { break; } }
+                        let mut m = 0;
+                        cur.reset();
+                        while let Some(_) = cur.move_on_prev().map_err(|e| err_class(&e))? { m += 1; if m > 5 { break; } }
+                        let hit = cur.move_on_key_equal_to([2u8]).map_err(|e| err_class(&e))?.map(|(_, v)| v.len() == (65 << 20) + 3).unwrap_or(false);
+                        Ok((n, m, hit))
+                    });
+                    c.bump("no_fault.large_block", 1);
+                    match r {
+                        Ok(Ok((3, 3, true))) => {}
+                        Ok(Ok(x)) => println!("DIRECT fail file with a 65 MiB entry: scans / seek give {:?} instead of (3, 3, true)", x),
+                        Ok(Err(e)) => println!("DIRECT fail file with a 65 MiB entry: no component failed, yet the reader returned {}", e),
+                        Err(_) => println!("DIRECT fail file with a 65 MiB entry: the reader panicked"),
+                    }
+                }
+                _ => println!("DIRECT fail a file with a 65 MiB entry could not be written"),
+            }
+        }
         // ---- sorter: every create, every merge call; chunk storage faults (spec only)
         {
             let scfg = gen_cfg_sorter(rng);
-            let scfg = SortCfg { parallel: false, ..scfg };
+            // (every I/O call of the chunk storage is a fault position: keep the chunk files shallow)
+            let scfg = SortCfg { parallel: false, levels: scfg.levels.min(3), ..scfg };
             let pool: Vec<Vec<u8>> = (0..rng.range(2, 12)).map(|_| gen_key(rng, 5)).collect();
             let ins: Vec<(Vec<u8>, Vec<u8>)> = (0..rng.range(5, 80)).map(|_| (pool[rng.below(pool.len() as u64) as usize].clone(), gen_val(rng, scfg.threshold / 4).iter().map(|_| 7u8).collect())).collect();
             let ctl0 = Ctl::new();
